@@ -200,7 +200,7 @@ def build_harness(pkg, race=False):
     return out, o
 
 
-def run_harness(binpath, test, tier, seed, extra_env=None, timeout=900, outname=None):
+def run_harness(binpath, test, tier, seed, extra_env=None, timeout=900, outname=None, pkg='llrp'):
     """run one TestVerif* of a harness binary; returns (cases_path, returncode, output)"""
     outp = os.path.join(BUILD, outname or ('cases_%s.txt' % test))
     if os.path.exists(outp):
@@ -209,7 +209,7 @@ def run_harness(binpath, test, tier, seed, extra_env=None, timeout=900, outname=
     if extra_env:
         env.update(extra_env)
     try:
-        rc, o = run([binpath, '-test.run', '^%s$' % test, '-test.timeout', '%ds' % timeout, '-test.count', '1'], cwd=os.path.join(REPO, 'pkg/llrp'), env=env, timeout=timeout + 30)
+        rc, o = run([binpath, '-test.run', '^%s$' % test, '-test.timeout', '%ds' % timeout, '-test.count', '1'], cwd=os.path.join(REPO, PKGDIR[pkg]), env=env, timeout=timeout + 30)
     except subprocess.TimeoutExpired as e:
         return outp, 124, 'harness timed out after %ds' % timeout
     return outp, rc, o
